@@ -53,6 +53,7 @@ type proc struct {
 	lease  *lease
 	parked *request
 	gone   bool
+	recv   *simReceiver // the receiver this process opened last (its name and topic are what the code chose, not what the role says)
 }
 
 type lease struct {
@@ -525,18 +526,19 @@ func (sd *simSender) Send(ctx context.Context, foreignID string, statusType int,
 	s := sd.s
 	p := procOf(ctx)
 	d := s.enter(p, "SD", 0)
-	s.emit(p, fmt.Sprintf("SD:%s=%s", s.hdrTok(foreignID, statusType, headers), dispRes(d)))
-	if d == dOk || d == dErrAfter || d == dStale {
-		// like the bundled memstreamer, the log keeps the headers map it was handed (no copy): a relay that re-uses one map for
-		// several entries corrupts what it published earlier
-		h := headers
-		if h[workflow.HeaderTopic] != sd.topic {
-			h = map[workflow.Header]string{}
-			for k, v := range headers {
-				h[k] = v
-			}
-			h[workflow.HeaderTopic] = sd.topic // the sender's topic is authoritative
+	// like the bundled memstreamer, the log keeps the headers map it was handed (no copy): a relay that re-uses one map for
+	// several entries corrupts what it published earlier
+	h := headers
+	if h[workflow.HeaderTopic] != sd.topic {
+		h = map[workflow.Header]string{}
+		for k, v := range headers {
+			h[k] = v
 		}
+		h[workflow.HeaderTopic] = sd.topic // the sender's topic is authoritative (kafka-like streamers route by it)
+	}
+	// the token says what is published WHERE: under the topic of the sender the event was handed to
+	s.emit(p, fmt.Sprintf("SD:%s=%s", s.hdrTok(foreignID, statusType, h), dispRes(d)))
+	if d == dOk || d == dErrAfter || d == dStale {
 		s.log = append(s.log, &workflow.Event{ID: int64(len(s.log)) + 1, ForeignID: foreignID, Type: statusType, Headers: h, CreatedAt: simBase.Add(time.Duration(s.now))})
 	}
 	return sd.s.dispErr(d)
@@ -575,7 +577,11 @@ func (st simStreamer) NewReceiver(ctx context.Context, topic string, name string
 		s.cursors[name] = len(s.log)
 	}
 	s.openReceivers.Add(1)
-	return &simReceiver{s: s, p: p, topic: topic, name: name}, nil
+	rc := &simReceiver{s: s, p: p, topic: topic, name: name}
+	if p != nil {
+		p.recv = rc
+	}
+	return rc, nil
 }
 
 func (s *sim) nextEvent(topic, name string) (int, *workflow.Event) {
